@@ -621,8 +621,12 @@ def main(argv=None):
             "wall_s": round(time.time() - t0, 2),
             "violations": len({s for s, _ in violations_out}),
         }
-        os.makedirs(os.path.join(VERIF, "evidence"), exist_ok=True)
-        with open(os.path.join(VERIF, "evidence", pid + ".json"), "w") as f:
+        # evidence/ describes /repo itself: runs against a scratch copy (mutants, seeded changes) write elsewhere
+        edir = os.path.join(VERIF, "evidence")
+        if os.path.realpath(os.environ.get("VERIF_REPO") or "/repo") != "/repo":
+            edir = os.path.join(os.environ.get("VERIF_OUT") or os.path.join(VERIF, "out"), "evidence")
+        os.makedirs(edir, exist_ok=True)
+        with open(os.path.join(edir, pid + ".json"), "w") as f:
             json.dump(evidence, f, indent=1, sort_keys=True)
             f.write("\n")
         print("%s tier=%s seed=%d: %d cases, %d distinct non-trivial, %d replayed, %d violation signature(s), %.0fs" % (
